@@ -108,6 +108,26 @@ func init() {
 			"parseFunctionKey / parseSgrMouse: the partial flag is not characterised (only: not complete => nothing consumed)"},
 	})
 	reg(&PropDef{
+		ID:    "C05",
+		Level: "proof",
+		Funcs: []string{"tcell.(*tScreen).scanInput", "tcell.(*tScreen).inputLoop", "tcell.(*baseScreen).PostEvent", "tcell.(*baseScreen).PostEventWait", "tcell.(*baseScreen).PollEvent",
+			"tcell.(*baseScreen).ChannelEvents", "tcell.NewEventFocus", "tcell.NewEventKey", "tcell.NewEventMouse", "tcell.(*simscreen).postEvent"},
+		Custom: []func(*PropRun){c05Replays},
+		Trusted: []string{"Go channels are FIFO and deliver each value to exactly one receiver; the schedule-quantified conclusion (exactly once, global order) follows from the per-function contracts by the standard argument for single-consumer FIFO queues, which is assumed",
+			"screenImpl.EventQ/StopQ return the implementation's channels (assumed interface contract)", "time.Now() is an arbitrary time value (ghost clock not modelled)"},
+		Assume: []string{"ErrEventQFull is non-nil (package variable initialised by errors.New, never written)",
+			"not decided: that a true HasPendingEvent means the next PollEvent does not block (single consumer assumed), order between different posting goroutines, When() lying between cause and delivery (no clock model); mainLoop's append-then-scan order is not under contract (timers)"},
+	})
+	reg(&PropDef{
+		ID:     "C06",
+		Level:  "other",
+		Custom: []func(*PropRun){c06Discipline, c06Replays},
+		Trusted: []string{"Tty contract: Drain wakes a pending Read, which then returns; Stop/Close return (assumed; the tty is outside the verified code)",
+			"a goroutine that is not blocked on a channel operation, the screen lock or the tty runs to completion (no other blocking primitives in the waited-for goroutines: checked syntactically for channel operations only)"},
+		Assume: []string{"level 'other': a sufficient discipline over the goroutines disengage waits for, not a proof over interleavings; bounded time is not quantified",
+			"after Fini: PollEvent returns nil at once by the C05 PollEvent contract and closed-channel semantics (assumed); 'further Screen calls do not panic' is not decided here"},
+	})
+	reg(&PropDef{
 		ID:    "C11",
 		Level: "proof",
 		Funcs: []string{"tcell.(*tScreen).parseRune", "tcell.(*tScreen).parseFocus", "tcell.(*tScreen).parseFunctionKey", "tcell.(*tScreen).inputLoop", "tcell.(*tScreen).collectEventsFromInput"},
@@ -656,6 +676,100 @@ func (*verifSeqTty) WindowSize() (WindowSize, error) { return WindowSize{Width: 
 		fail("first event is %T, want EventClipboard(\"ABC\")", evs[0])
 		return
 	}`)
+		}
+	}
+}
+
+func c05Replays(run *PropRun) {
+	for _, g := range run.Groups {
+		switch g.Name {
+		case "tcell.NewEventFocus/ensures#complete":
+			g.ReplayGo = replayTest("tcell", nil, `
+	func() {
+		defer func() {
+			if r := recover(); r != nil {
+				fail("NewEventFocus(true).When() panics: %v", r)
+			}
+		}()
+		_ = NewEventFocus(true).When()
+	}()`)
+		case "tcell.(*baseScreen).ChannelEvents/calls#interruptible":
+			g.ReplayGo = replayTest("tcell", []string{"time"}, `
+	s := NewSimulationScreen("")
+	if err := s.Init(); err != nil { fail("init: %v", err); return }
+	ch := make(chan Event) // nobody receives
+	quit := make(chan struct{})
+	done := make(chan struct{})
+	go func() { s.ChannelEvents(ch, quit); close(done) }()
+	s.InjectKey(KeyRune, 'x', ModNone)
+	time.Sleep(50 * time.Millisecond) // the forwarder now holds the event
+	close(quit)
+	select {
+	case <-done:
+	case <-time.After(time.Second):
+		fail("ChannelEvents did not return within 1s of quit being closed (blocked in a send nobody receives)")
+		return
+	}`)
+		}
+	}
+}
+
+// c06Replays: demonstrations with a scripted tty for the discipline obligations known to fail.
+func c06Replays(run *PropRun) {
+	tty := `
+type c06Tty struct {
+	data chan byte
+	wake chan struct{}
+}
+
+func newC06Tty() *c06Tty { return &c06Tty{data: make(chan byte, 4096), wake: make(chan struct{}, 16)} }
+func (t *c06Tty) Read(p []byte) (int, error) {
+	select {
+	case b := <-t.data:
+		p[0] = b
+		return 1, nil
+	case <-t.wake:
+		return 0, nil
+	}
+}
+func (t *c06Tty) Write(p []byte) (int, error)     { return len(p), nil }
+func (t *c06Tty) Close() error                    { return nil }
+func (t *c06Tty) Start() error                    { return nil }
+func (t *c06Tty) Stop() error                     { return nil }
+func (t *c06Tty) Drain() error                    { t.wake <- struct{}{}; return nil }
+func (t *c06Tty) NotifyResize(cb func())          {}
+func (t *c06Tty) WindowSize() (WindowSize, error) { return WindowSize{Width: 80, Height: 24}, nil }
+`
+	scenario := func(n int, call, what string) string {
+		return replayTest("tcell", []string{"time", modPath + "/terminfo", "_ " + modPath + "/terminfo/base"}, fmt.Sprintf(`
+	ti, err := terminfo.LookupTerminfo("xterm")
+	if err != nil { fail("no xterm description: %%v", err); return }
+	for round := 0; round < 8; round++ { // which ready select case the main loop takes is random: several rounds
+		tty := newC06Tty()
+		s, err := NewTerminfoScreenFromTtyTerminfo(tty, ti)
+		if err != nil { fail("new screen: %%v", err); return }
+		if err := s.Init(); err != nil { fail("init: %%v", err); return }
+		// the application does not poll; %d keys arrive one read at a time
+		for i := 0; i < %d; i++ { tty.data <- byte('a' + i%%26) }
+		time.Sleep(200 * time.Millisecond)
+		done := make(chan struct{})
+		go func() { %s; close(done) }()
+		select {
+		case <-done:
+		case <-time.After(2 * time.Second):
+			fail("%s (round %%d)", round)
+			return
+		}
+	}`, n, n, call, what)) + tty
+	}
+	for _, g := range run.Groups {
+		switch {
+		case strings.HasPrefix(g.Name, "tScreen.(*tScreen).scanInput/blocking#") && strings.HasSuffix(g.Name, "/stops-on-suspend"):
+			g.ReplayGo = scenario(15, "s.Suspend()", "Suspend() did not return within 2s: 15 unpolled keys fill the event queue, the main loop blocks delivering the 11th and disengage waits for it forever")
+		case strings.HasPrefix(g.Name, "tScreen.(*tScreen).inputLoop/blocking#") && strings.Contains(g.Name, "send:keychan") && strings.HasSuffix(g.Name, "/stops-on-fini"):
+			g.ReplayGo = scenario(40, "s.Fini()", "Fini() did not return within 2s: with 40 unpolled keys the input goroutine is blocked sending to the full key channel, which nobody drains after the main loop exits")
+		case strings.HasPrefix(g.Name, "tScreen.(*tScreen).inputLoop/blocking#") && strings.Contains(g.Name, "send:keychan") && strings.HasSuffix(g.Name, "/stops-on-suspend"):
+			g.ReplayGo = scenario(40, "s.Suspend()", "Suspend() did not return within 2s: with 40 unpolled keys the input goroutine is blocked sending to the full key channel")
 		}
 	}
 }
